@@ -3,6 +3,7 @@ import MaestroVerif.Lemmas.SubstLemmas
 import MaestroVerif.Lemmas.CsvLemmas
 import MaestroVerif.Lemmas.ExpandPlace
 import MaestroVerif.Lemmas.ExpandAdj
+import MaestroVerif.Lemmas.ExpandInv
 
 /-!
 # C08 — Parameter expansion creates exactly the right instances and edges
@@ -363,6 +364,22 @@ theorem C08_edges_recorded_consistently {ord : List Str → List Str} (ho : IsPe
     (hfresh : ∀ k, inst.name ∉ getAssoc s.g.adj k) (p : Str) (hp : p ≠ inst.name) :
     p ∈ getAssoc s'.g.deps inst.name ↔ inst.name ∈ getAssoc s'.g.adj p :=
   place_edges_consistent ho s s' inst isRoot parents hubD h hfresh p hp
+
+/-- **exactly one instance per name, in the finished graph**: whatever the specification and the
+iteration order, the expansion never holds two instances of the same name, and every instance is
+a node of the graph (`Lemmas/ExpandInv.lean`: the property is preserved by every placement, and
+`stage_inv` lifts any such property to the whole of `stage`) -/
+theorem C08_exactly_one_instance_per_name (spec : Spec) (ord : List Str → List Str) (r : XG)
+    (h : stage spec ord = .ok r) :
+    (r.insts.map (·.name)).Nodup ∧ ∀ i, i ∈ r.insts → r.hasNode i.name = true :=
+  stage_uniqueNames spec ord r h
+
+/-- the lifting itself: a property of the graph that no placement destroys holds of every
+expansion (used above; stated here because it is how the per-placement theorems of this file
+speak about the finished graph) -/
+theorem C08_stage_invariant {P : XG → Prop} (hP : PlaceInv P) (spec : Spec) (ord : List Str → List Str)
+    (r : XG) (h : stage spec ord = .ok r) (h0 : P (initSS spec.root).g) : P r :=
+  stage_inv hP spec ord r h h0
 
 /-- the table the funnel edges are read from records the instances of a step as they are created -/
 theorem C08_combos_record (spec : Spec) (ord : List Str → List Str) (st : Step) (used : List Str)
